@@ -1038,7 +1038,7 @@ impl<'c> Hist<'c> {
 				Some(*rng.pick(&v))
 			}
 		};
-		let kind = forced_kind.unwrap_or_else(|| self.rng.below(7));
+		let kind = forced_kind.unwrap_or_else(|| self.rng.below(8));
 		let (op, name): (Op, &'static str) = match kind {
 			0 => {
 				let c = pick_col(&mut self.rng, &|c| !c.multitree && !c.ref_counted && !c.btree_index)?;
@@ -1122,6 +1122,16 @@ impl<'c> Hist<'c> {
 					spec = TreeSpec { data: self.tree_nonce.to_le_bytes().to_vec(), children };
 				}
 				(Op::InsertTree(c, k, spec), "unrepresentable_fanout")
+			},
+			7 => {
+				// reference of a tree in a column whose roots are not counted
+				let c = pick_col(&mut self.rng, &|c| c.multitree && !c.append_only && !c.ref_counted)?;
+				let tm = self.trees.get(&c).unwrap();
+				let k = match tm.roots.keys().next() {
+					Some(k) if self.rng.chance(2, 3) => k.clone(),
+					_ => self.rng.pick(&self.pools[c as usize]).clone(),
+				};
+				(Op::RefTree(c, k), "reference_tree_without_root_counting")
 			},
 			_ => {
 				let c = pick_col(&mut self.rng, &|c| c.multitree && c.append_only)?;
